@@ -387,6 +387,9 @@ def run_one(ck, prog):
                     return ("split", const_value(z[2][1]))
                 if z[0] == "call" and (z[1] or "").endswith("Index::index") and rbuf and mentions(z[2][0], ctx.prov, lambda w: w[0] == "place" and w[1] == rbuf[0][1]):
                     return range_of(z[2][1], 8)
+                # a slice pattern's rest binding: `let [a, b, c, d, footer @ ..] = bytes`
+                if z[0] == "subslice" and rbuf and mentions(z[1], ctx.prov, lambda w: w[0] == "place" and w[1] == rbuf[0][1]):
+                    return (z[2], 8 - z[3] if z[4] else z[3])
             ee = strip_casts(e)
             if isinstance(ee, tuple) and ee[0] == "agg" and ee[1] == "array":
                 idx = []
